@@ -1,15 +1,15 @@
 // ---------------------------------------------------------------------------
 // lemmas/interval_domain.rs -- proved facts for the IntervalDomain unit.
 // ---------------------------------------------------------------------------
-use vstd::arithmetic::div_mod::rust_rem;
+
 
 /// the idiom `((a % m) + m) % m` with Rust's truncating `%` is the Euclidean remainder
 pub proof fn lemma_idom_posmod(a: int, m: int)
     requires m > 0
-    ensures ({ let d = rust_rem(a, m); let d2 = rust_rem(d + m, m); 0 <= d2 < m && d2 == a % m }),
-            -m < rust_rem(a, m) < m,
+    ensures ({ let d = vstd::arithmetic::div_mod::rust_rem(a, m); let d2 = vstd::arithmetic::div_mod::rust_rem(d + m, m); 0 <= d2 < m && d2 == a % m }),
+            -m < vstd::arithmetic::div_mod::rust_rem(a, m) < m,
 {
-    let d = rust_rem(a, m);
+    let d = vstd::arithmetic::div_mod::rust_rem(a, m);
     if a > 0 {
         vstd::arithmetic::div_mod::lemma_mod_bound(a, m);
         vstd::arithmetic::div_mod::lemma_fundamental_div_mod_converse(d + m, m, 1, d);
@@ -91,4 +91,20 @@ pub proof fn lemma_idom_same_class(x: int, a: int, b: int, m: int)
 {
     if (x - a) % m == 0 { lemma_divides_add(m, x - a, a - b); }
     if (x - b) % m == 0 { lemma_divides_add(m, x - b, a - b); assert((x - b) - (a - b) == x - a); }
+}
+
+/// truncating to `big` bits and then to w <= big bits is truncating to w bits
+pub proof fn lemma_idom_trunc_trunc(w: nat, big: nat, x: int)
+    requires w <= big
+    ensures (trunc(big, x) as int) % (p2(w) as int) == trunc(w, x),
+{
+    lemma_trunc_range(big, x);
+    lemma_p2_mono(w, big);
+    let q = x / (p2(big) as int);
+    let t = trunc(big, x) as int;
+    let k = p2((big - w) as nat) as int;
+    assert(x == t + (q * k) * p2(w)) by (nonlinear_arith)
+        requires x == q * p2(big) + t, p2(big) == p2(w) * k;
+    lemma_trunc_congruent(w, x, t, q * k);
+    lemma_trunc_range(w, t);
 }
